@@ -299,8 +299,16 @@ func genMetadata(rt *rapid.T) (string, []byte) {
 		return "[" + strings.Join(parts, sep) + "]"
 	}
 	kind := drawWeighted(rt, "mdkind", []weighted{{"valid", 12}, {"empty", 2}, {"plain-json", 2}, {"unknown-top", 2}, {"unknown-nested", 2}, {"dup-key", 2}, {"case-key", 2}, {"case-key-both", 1},
-		{"nested-case", 2}, {"escaped-key", 2}, {"escaped-value", 1}, {"wrong-type", 3}, {"null", 1}, {"array-top", 1}, {"string-top", 1}, {"trailing", 2}, {"non-json", 2}, {"big", 1}, {"legacy-bytes", 1}, {"padded-id", 2}})
+		{"nested-case", 2}, {"escaped-key", 2}, {"escaped-value", 1}, {"wrong-type", 3}, {"null", 1}, {"array-top", 1}, {"string-top", 1}, {"trailing", 2}, {"non-json", 2}, {"big", 1}, {"legacy-bytes", 1}, {"padded-id", 2}, {"valid-long", 2}})
 	switch kind {
+	case "valid-long":
+		// the documented structure, stretched with insignificant white space to just under the 5120 bytes a message may carry
+		body := `{"perm_channels":` + list() + `}`
+		pad := rapid.IntRange(4100, 5118).Draw(rt, "longTo") - len(body)
+		if pad < 0 {
+			pad = 0
+		}
+		return kind, []byte(`{` + strings.Repeat(" ", pad) + body[1:])
 	case "padded-id":
 		// identifiers with white space around them name other (non-existent) channels, not the trimmed ones
 		ch := c19Channels[rapid.IntRange(0, len(c19Channels)-1).Draw(rt, "padch")]
